@@ -607,8 +607,10 @@ fn match_with_rule<'src>(
 
             asm::RulePatternPart::Whitespace =>
             {
+                // A comment separates two tokens just like a blank does
                 if !walker.is_over() &&
-                    walker.next_token().kind != syntax::TokenKind::Whitespace
+                    walker.next_token().kind != syntax::TokenKind::Whitespace &&
+                    walker.next_token().kind != syntax::TokenKind::Comment
                 {
                     return vec![];
                 }
